@@ -130,8 +130,6 @@ def r4(ctx):
 
 
 RULES = [r1, r2, r3, r4]
-CLAIMED = False
-NA_REASON = "rules C08.R1-R4 are wired; R2 (page stride / page-relative words) fires on the unchanged tree and is being triaged before the property is claimed"
 EXPLANATION = ("C08 (has / contiguous_length exact for large, sparse, reopened cores): decides that every page/bit computation uses one named unit constant consistently (mask C-1 and divisor C, "
                "32768 bits = 4096 bytes = 1024 x 32-bit words) and that a missing page reads false (R1); that the page reader uses the writer's byte stride and page-relative little-endian words (R2); "
                "that every Bitfield::update in core.rs is followed on all paths by update_contiguous_length on the same update and bitfield, clear lowers the hint to `start`, info reports the "
